@@ -27,10 +27,11 @@ extern int mpt_path_last(MPT_STRUCT(path) *path)
 	/* current path starts behind consumed elements */
 	data += path->off;
 	if (path->flags & MPT_PATHFLAG(SepBinary)) {
-		if (pos < 2 || pos < (len = data[pos-2])) {
+		if (pos < 2 || (pos - 2) < (len = (uint8_t) data[pos-2])) {
 			errno = EINVAL; return -2;
 		}
-		pos -= len;
+		/* element is followed by own and next length */
+		pos -= len + 2;
 		
 		path->off += pos;
 		path->len  = (path->first = len) + 2;
